@@ -42,7 +42,7 @@ def build_race_plan(rng, tier):
 		op.update(kw)
 		ops.append(op)
 
-	ms_hops = rng.random() < 0.5
+	ms_hops = rng.random() < 0.7
 	bts_ver = rng.choice([0, 1])
 	ms_ver = rng.choice([0, 1])
 	cmd(0, "RXTUNE %d" % B)
@@ -73,19 +73,21 @@ def build_race_plan(rng, tier):
 	ops.append({"op": "idle", "dt": rng.randint(2, 6) * P_NS})
 	ver = {0: bts_ver, 1: ms_ver, 4: 0}
 	senders = [0, 1] + ([4] if child else [])
-	nraces = rng.choice([1, 1, 2, 3])
+	nraces = rng.choice([2, 3, 3, 4])
 	for _ in range(nraces):
 		back = []
 		# some bursts already queued for the coming frames
-		for _k in range(rng.choice([0, 1, 2, 4, 8])):
-			s = rng.choice(senders)
-			ops.append({"op": "burst", "trx": s, "adv": rng.choice([1, 1, 2, 2, 3]), "tn": rng.randrange(8), "pwr": rng.choice([0, 10]),
+		pre = [rng.choice(senders) for _k in range(rng.choice([0, 1, 2, 4, 8]))]
+		if rng.random() < 0.8:
+			pre += senders  # every sender has something due in the racing tick: the tick does real work
+		for s in pre:
+			ops.append({"op": "burst", "trx": s, "adv": rng.choice([1, 1, 1, 2, 3]), "tn": rng.randrange(8), "pwr": rng.choice([0, 10]),
 				"kind": rng.choice(["NB", "RAND", "SB", "AB", "EDGE"]), "bseed": rng.randrange(1 << 30), "ver": ver[s],
 				"dt": rng.choice([0, 0, 1000])})
 		# the racing datagram, released at the instant of the next tick
 		r = rng.random()
 		s = rng.choice(senders)
-		if r < 0.4:
+		if r < 0.3:
 			op = {"op": "burst", "trx": s, "adv": rng.choice([1, 1, 1, 2, 0, 3]), "tn": rng.randrange(8), "pwr": 0,
 				"kind": rng.choice(["NB", "RAND"]), "bseed": rng.randrange(1 << 30), "ver": ver[s]}
 		elif r < 0.65:
@@ -121,7 +123,7 @@ def build_race_plan(rng, tier):
 	ops.append({"op": "idle", "dt": 6 * P_NS})
 	start = rng.choice([0, 0, rng.randrange(HYPER), HYPER - 1 - rng.randrange(20)])
 	cfg = {"trx": trx, "clck_start": start, "ind_period": rng.choice([102, 1, 13]), "bind_addr": "0.0.0.0",
-		"mode": "fine", "fine": {"strategy": rng.choice(["sweep", "sweep", "sweep", "pct2", "pct3", "walk"]),
+		"mode": "fine", "fine": {"strategy": rng.choice(["sweep", "sweep", "sweep", "sweep", "sweep", "pct2", "pct3", "walk"]),
 			"k": rng.randrange(1 << 20), "p": rng.choice([0.02, 0.05, 0.2]), "first": rng.randrange(2)},
 		"sniffers": {"0": 2, "1": 3, "4": 2}}
 	return {"engine": "um", "seed": None, "config": cfg, "ops": ops}
